@@ -910,6 +910,18 @@ func cmdRun(args []string) int {
 	if violations > 0 {
 		return 1
 	}
+	// Nothing violated. Solver unknowns and bound hits reduce the explored bound (stated in the
+	// INCONCLUSIVE lines and the evidence) and leave the exit code at 0. A run that could not
+	// execute the code at all (unsupported construct, vacuous cover point, native run failed,
+	// counterexamples that do not replay) did not decide anything and must not look like a pass.
+	for _, v := range inconclusive {
+		if strings.Contains(v, "ended unsupported") || strings.Contains(v, "did not reproduce natively") || strings.HasPrefix(v, "native run failed") {
+			return 3
+		}
+	}
+	if len(vacuous) > 0 {
+		return 3
+	}
 	return 0
 }
 
